@@ -78,13 +78,31 @@ pub fn worker(a: &[String]) -> i32 {
     let mut global = 0u64;
     let mut skipping = skip.is_some();
     let mut since_summary = 0u64;
-    for (sid, st) in def.strata.iter().enumerate() {
-        let cnt = stratum_count(st, tier);
+    // The strata advance side by side, each in proportion to its size: when the wall-clock budget
+    // runs out (a slow or busy machine) every stratum has been cut at the same fraction, instead of
+    // the later ones not having run at all. The order is a pure function of the case counts.
+    let counts: Vec<u64> = def.strata.iter().map(|st| stratum_count(st, tier)).collect();
+    let mut next_idx: Vec<u64> = vec![0; counts.len()];
+    let total: u64 = counts.iter().sum();
+    for _ in 0..total {
+        // the stratum that is furthest behind: smallest next/cnt, compared without division
+        let mut sid = usize::MAX;
+        for (i, c) in counts.iter().enumerate() {
+            if next_idx[i] >= *c {
+                continue;
+            }
+            if sid == usize::MAX || (next_idx[i] as u128) * (counts[sid] as u128) < (next_idx[sid] as u128) * (*c as u128) {
+                sid = i;
+            }
+        }
+        let st = &def.strata[sid];
+        let idx = next_idx[sid];
+        next_idx[sid] += 1;
         let exhaustive = match tier {
             Tier::Quick => st.exhaustive.0,
             Tier::Thorough => st.exhaustive.1,
         };
-        for idx in 0..cnt {
+        {
             let mine = global % n == k;
             global += 1;
             if !mine {
